@@ -167,7 +167,16 @@ def run_shard(rec, tier, seed, shard, nshards):
                     table[pid] = float("inf") if rng.random() < 0.8 else float(rng.normal())
                 else:
                     table[pid] = 0.5
-            scorer = RecScorer(table)
+            if rng.random() < 0.3:
+                # a user's scorer derived from a shipped one (it reads its plates like any other scorer)
+                from batchie.scoring.rand import RandomScorer as _RS
+                from batchie.scoring.size import SizeScorer as _SS
+
+                base_ = [_RS, _SS][int(rng.integers(2))]
+                scorer = type("Rec" + base_.__name__, (base_,), {"__init__": RecScorer.__init__, "score": RecScorer.score})(table)
+                rec.count("scorers_derived_from_a_shipped_scorer")
+            else:
+                scorer = RecScorer(table)
             w = {"plates": {str(k): [len(v), k in observed] for k, v in plate_rows.items()}, "n_chunks": n_chunks, "batch": batch, "scores": {str(k): table[k] for k in table}}
             files = []
             ok = True
